@@ -126,8 +126,14 @@ func genCase(t *rapid.T) Case {
 		}
 	case "modf":
 		c.X = gen.Finite(t, ctx, "x")
+		if gen.Pick(t, 8, "mlong") == 0 { // hundreds to thousands of digits
+			c.X.Coeff = gen.DigitsN(t, rapid.IntRange(300, 2500).Draw(t, "ml"), gen.Pick(t, 10, "ms"), "mlc")
+		}
 		nd := len(c.X.Coeff)
 		c.X.Exp = int32(rapid.IntRange(-nd-3, 3).Draw(t, "mexp"))
+		if gen.Pick(t, 3, "mnear") == 0 { // the point next to the first digit: value in [0.01, 1000)
+			c.X.Exp = int32(-nd + rapid.IntRange(-2, 3).Draw(t, "mn"))
+		}
 		c.Which = gen.Pick(t, 3, "which")
 		c.Dirty = gen.Any(t, ctx, "dirty")
 	}
